@@ -86,7 +86,7 @@ def gen(r, tier, i):
             o = one(kind)
             if o:
                 batches.append([o])
-    return {'batches': batches, 'deriver': r.choice([None, 'steps', 'processes']),
+    return {'batches': batches, 'deriver': r.choice([None, 'steps', 'processes']), 'base': r.choice([[], [], ['env'], ['env', 'lab']]),
             'n0': {'a': 64 * r.randint(0, 20), 'b': 64 * r.randint(0, 20)}}
 
 
@@ -112,11 +112,12 @@ def run(spec):
     V = Viol()
     der = spec['deriver']
     cfg = {'ts': 1.0, 'deriver': der, 'parallel': False}
+    base = tuple(spec.get('base', []))        # the whole arrangement may live in a nested compartment
     comp = Composite()
     for a in ('a', 'b'):
-        comp.merge(composite=structw.Cell(dict(cfg, agent_id=a)).generate(path=('A', a)))
+        comp.merge(composite=structw.Cell(dict(cfg, agent_id=a)).generate(path=base + ('A', a)))
     comp.merge(processes={'dir': structw.Director({'script': {}, 'cell': cfg, 'tag': 'dir'})},
-               topology={'dir': {'A': ('A',), 'B': ('B',), 'clk': ('clk',)}})
+               topology={'dir': {'A': ('A',), 'B': ('B',), 'clk': ('clk',)}}, path=base)
 
     class Keeper(Process):
         def ports_schema(self):
@@ -124,10 +125,12 @@ def run(spec):
 
         def next_update(self, timestep, states):
             return {}
-    comp.merge(processes={'keeper': Keeper({'tag': 'keeper'})}, topology={'keeper': {'other': ('other',)}})
+    comp.merge(processes={'keeper': Keeper({'tag': 'keeper'})}, topology={'keeper': {'other': ('other',)}}, path=base)
     init = {'B': {}, 'A': {a: {'st': {'n': spec['n0'][a]}} for a in ('a', 'b')}}
+    for k in reversed(base):
+        init = {k: init}
     try:
-        store = comp.generate_store({'initial_state': init})
+        store = comp.generate_store({'initial_state': init}).get_path(base)
     except Exception as ex:
         import traceback
         V.check('no_exception', False, ('generate_store raised', type(ex).__name__, str(ex)[:200], traceback.format_exc()[-300:]))
